@@ -6,7 +6,7 @@ use std::ops::{Add, Mul};
 
 use crate::sexp::SExp;
 
-#[derive(Clone, Debug, PartialEq, Eq, Hash)]
+#[derive(Clone, Debug, PartialEq, Eq)]
 pub enum Val {
   Int(i64),
   Bool(bool),
@@ -16,6 +16,18 @@ pub enum Val {
   None,
   Some(Box<Val>),
   Obs(usize),
+}
+
+/// A deliberately COARSE hash (legal: equal values hash equally; many unequal values collide, e.g. 0, 2, 4 …):
+/// code under test that identifies a key by its hash instead of `Eq` (seed C20-5) is exposed at once, correct
+/// code only walks longer buckets.
+impl std::hash::Hash for Val {
+  fn hash<H: std::hash::Hasher>(&self, h: &mut H) {
+    match self {
+      Val::Int(i) => i.rem_euclid(2).hash(h),
+      _ => 0u8.hash(h),
+    }
+  }
 }
 
 impl Default for Val {
